@@ -6,7 +6,7 @@ from typing import List, Optional, Set, Tuple
 
 import networkx as nx
 
-from ..cfg import ENTRY, EXIT, RAISE, reaching_defs
+from ..cfg import CFG, ENTRY, EXIT, RAISE, reaching_defs
 from ..common import calls_named, dotted, kw, loc, norm, stmt_of
 from ..model import AnalysisError, ClassInfo, FunctionInfo, own_nodes
 from .util import anchor_func, assigned_name, build_cfg, facts, switch_assumptions
@@ -129,6 +129,30 @@ def r14_2(run):
         ok = _like_self_data(v) or (dt is not None and norm(dt) == "self.dtype")
         run.ob("R14.2", loc(fi, cfg.stmt[d]), fi.short, f"seed definition {norm(v)[:60] if v is not None else '?'} has the tensor's dtype", ok,
                "*_like(self.data) or dtype=self.dtype" if ok else "the stored seed can have a dtype different from the tensor's")
+    # (1b) type: the caller's object (possibly a Tensor) enters the seed only through asarray(...), which yields a plain ndarray
+    uses = [x for x in own_nodes(fi.node) if isinstance(x, ast.Name) and x.id == gradp and isinstance(x.ctx, ast.Load)]
+    raw = []
+    for u in uses:
+        par = getattr(u, "_parent", None)
+        if isinstance(par, ast.Compare) and all(isinstance(o, (ast.Is, ast.IsNot)) for o in par.ops):
+            continue
+        if isinstance(par, ast.Call) and par.args and par.args[0] is u and (dotted(par.func) or "").split(".")[-1] in ("asarray", "asanyarray", "array"):
+            tgt = facts(run).resolve_call(fi, par)
+            nm = tgt.qualname if isinstance(tgt, FunctionInfo) else (facts(run).ext_name_of(fi, par.func) or "")
+            if nm in ("mygrad.tensor_base.asarray", "numpy.asarray", "numpy.array"):
+                continue
+        p2 = u
+        in_raise = False
+        while p2 is not None and not isinstance(p2, ast.stmt):
+            p2 = getattr(p2, "_parent", None)
+        if isinstance(p2, ast.Raise):
+            continue  # error text
+        if fi.qualname == BACKWARD and isinstance(par, ast.Call) and isinstance(par.func, ast.Attribute) and norm(par.func.value) == "self":
+            continue  # handed to the seed helper (judged there)
+        raw.append(u)
+    run.ob("R14.2", loc(fi, raw[0] if raw else st), fi.short, f"the caller's `{gradp}` reaches the seed only through asarray(...)", not raw,
+           f"{len(uses)} use(s): None-tests, asarray(...), error text" if not raw else
+           f"`{gradp}` is used raw in `{norm(getattr(raw[0], '_parent', raw[0]))[:60]}`: a Tensor seed turns the NumPy call into a mygrad op and a Tensor is stored as .grad")
     # (2) shape: under `grad is not None` every path to the store leaves a shape test on its false edge
     cfg1 = build_cfg(run, fi, switch_assumptions(fi, track=True, extra={"self.constant": False, f"{gradp} is not None": True}))
     ns1 = cfg1.node_for(st)
@@ -194,6 +218,56 @@ def r14_2(run):
            "np.full_like(self.data, 1.0) / ones_like(self.data)" if ok else "backward() without argument does not seed with ones_like(self)")
 
 
+_ARR_MAKERS = ("asarray", "array", "copy", "ascontiguousarray", "full_like", "ones_like", "zeros_like", "empty_like", "full", "zeros", "ones", "empty")
+_ARR_METHODS = ("astype", "reshape", "copy", "view", "transpose", "squeeze")
+
+
+def _scalar_leak(cfg, e: ast.AST, at: int, seen) -> Optional[ast.AST]:
+    """None if expression `e` (evaluated at CFG node `at`) is an ndarray whenever its array inputs are; otherwise the sub-expression
+    that can produce a NumPy scalar for 0-d operands (array arithmetic, ufunc calls without out=, reductions, unknown calls)."""
+    if isinstance(e, ast.IfExp):
+        return _scalar_leak(cfg, e.body, at, seen) or _scalar_leak(cfg, e.orelse, at, seen)
+    if isinstance(e, ast.Name):
+        for d in reaching_defs(cfg, e.id, at):
+            if d == ENTRY or (d, e.id) in seen:
+                continue
+            seen.add((d, e.id))
+            st = cfg.stmt[d]
+            v = getattr(st, "value", None)
+            if isinstance(st, ast.AugAssign) or v is None:
+                return st
+            if isinstance(st, ast.Assign) and len(st.targets) == 1 and isinstance(st.targets[0], ast.Name):
+                r = _scalar_leak(cfg, v, d, seen)
+                if r is not None:
+                    return r
+            else:
+                return st
+        return None
+    if isinstance(e, ast.Call):
+        d = dotted(e.func) or ""
+        if d.split(".")[0] in ("np", "numpy") and d.split(".")[-1] in _ARR_MAKERS:
+            return None
+        if isinstance(e.func, ast.Attribute) and e.func.attr in _ARR_METHODS and not d.startswith(("np.", "numpy.")):
+            return _scalar_leak(cfg, e.func.value, at, seen)
+        if d.endswith("grad_post_process_fn") and e.args:
+            return _scalar_leak(cfg, e.args[0], at, seen)  # returns its argument or a 0-d-normalised reduction (checked below)
+        h = _HELPER_RESOLVER["f"](e) if isinstance(e.func, ast.Name) and _HELPER_RESOLVER.get("f") is not None else None
+        if h is not None and not h.node.args.vararg and not e.keywords and len(e.args) == len(h.node.args.args):
+            # a small repo helper: every return expression must be array-valued given array-valued parameters, and the actual arguments must be
+            rets = [r for r in own_nodes(h.node) if isinstance(r, ast.Return)]
+            if rets and all(r.value is not None for r in rets):
+                hc = CFG(h.node)
+                for r in rets:
+                    if _scalar_leak(hc, r.value, hc.node_for(r), set()) is not None:
+                        return e
+                for a in e.args:
+                    if isinstance(a, ast.Name) and _scalar_leak(cfg, a, at, seen) is not None:
+                        return e
+                return None
+        return e
+    return e
+
+
 def r14_3(run):
     fx = facts(run)
     # ---- Operation.backward
@@ -214,9 +288,12 @@ def r14_3(run):
         if g is None and isinstance(s, ast.Assign):
             # X._grad = (X._grad + g).astype(X.dtype ...)   -- accumulation spelled out, with the dtype cast
             v = s.value
+            inner = v.func.value if isinstance(v, ast.Call) and isinstance(v.func, ast.Attribute) else None
+            if isinstance(inner, ast.Call) and (dotted(inner.func) or "") in ("np.asarray", "numpy.asarray") and len(inner.args) == 1:
+                inner = inner.args[0]
             if isinstance(v, ast.Call) and isinstance(v.func, ast.Attribute) and v.func.attr == "astype" and v.args \
-                    and norm(v.args[0]) == f"{var}.dtype" and isinstance(v.func.value, ast.BinOp) and isinstance(v.func.value.op, ast.Add):
-                parts = [v.func.value.left, v.func.value.right]
+                    and norm(v.args[0]) == f"{var}.dtype" and isinstance(inner, ast.BinOp) and isinstance(inner.op, ast.Add):
+                parts = [inner.left, inner.right]
                 if any(norm(x) == f"{var}._grad" for x in parts):
                     other = [x for x in parts if norm(x) != f"{var}._grad"]
                     if len(other) == 1 and isinstance(other[0], ast.Name):
@@ -262,6 +339,15 @@ def r14_3(run):
         ok = any(cfg.dominates(c, ns) for c in conv)
         run.ob("R14.4", loc(fi, s), fi.short, f"`{norm(s)[:40]}` stores an ndarray (not a NumPy scalar)", ok,
                "np.asarray(backed_grad) dominates the store" if ok else "a Python/NumPy scalar can be stored as a gradient")
+        # ... and nothing between the conversion and the store turns a 0-d array back into a NumPy scalar
+        if isinstance(s, ast.AugAssign):
+            run.ob("R14.4", loc(fi, s), fi.short, f"`{norm(s)[:40]}` keeps the stored array", True,
+                   "in-place accumulation into the array already stored", nontrivial=False)
+            continue
+        bad = _scalar_leak(cfg, s.value, ns, set())
+        run.ob("R14.4", loc(fi, bad if bad is not None else s), fi.short, f"array-ness of `{norm(s)[:40]}` survives every step after np.asarray", bad is None,
+               "every reaching definition is np.asarray/np.copy/astype/… of an array, or the 0-d-normalising grad_post_process_fn" if bad is None else
+               f"`{norm(bad)[:60]}` yields a NumPy scalar, not a 0-d ndarray, when the operands are 0-d: a 0-d tensor's .grad becomes np.float64")
     pp = anchor_func(run, "mygrad.operation_base.Operation.grad_post_process_fn")
     cfgp = build_cfg(run, pp, {"NP_IS_V2": True})
     nd0 = [n for n, st in cfgp.stmt.items() if cfgp.label[n] == "If" and "ndim == 0" in norm(st)]
